@@ -133,20 +133,32 @@ def build_circuit(rng, a, fork_style=None, branchforks=None, name='rnd'):
         if not use_fork:
             Line(c, (drv, dpin), rds[0])
             continue
-        fk = Node(c, f'sig{nfork}'); nfork += 1
-        Line(c, (drv, dpin), fk)
-        if rng.random() < 0.1:       # fork chain
-            fk2 = Node(c, f'sig{nfork}'); nfork += 1
-            Line(c, fk, fk2)
-            fk = fk2 if rng.random() < 0.5 else fk
+        # decide the fork structure first, then create the fork nodes in a random order (sink-first orders included:
+        # Circuit.forks iterates in creation order, which need not be topological)
+        chain = rng.random() < 0.2
         rng.shuffle(rds)
-        for (rn, rp) in rds:
+        names = [f'sig{nfork}'] + ([f'sig{nfork}c'] if chain else [])
+        bnames = [f'sig{nfork}~{rn.name}/{rp}' for (rn, rp) in rds] if branchforks else []
+        nfork += 1
+        order = names + bnames
+        rng.shuffle(order)
+        made = {nm: Node(c, nm) for nm in order}
+        fk = made[names[0]]
+        Line(c, (drv, dpin), fk)
+        if chain:
+            fk2 = made[names[1]]
+            Line(c, fk, fk2)
+            split = rng.randint(0, len(rds))      # some readers hang on the first fork, the rest on the second
+        for k, (rn, rp) in enumerate(rds):
+            src_f = fk2 if (chain and k >= split) else fk
             if branchforks:
-                bf = Node(c, f'{fk.name}~{rn.name}/{rp}')
-                Line(c, fk, bf)
+                bf = made[bnames[k]]
+                Line(c, src_f, bf)
                 Line(c, bf, (rn, rp))
             else:
-                Line(c, fk, (rn, rp))
+                Line(c, src_f, (rn, rp))
+        if chain and split == len(rds) and len(fk2.outs) == 0 and rng.random() < 0.5:
+            pass                                   # dangling second fork
     return c
 
 
